@@ -25,6 +25,13 @@ type LoopSpec struct {
 	Dec  *Clause
 }
 
+// MarkSpec: `mark @after:<callee-glob>#<n> <label>` snapshots the state right after the n-th matching call.
+type MarkSpec struct {
+	Glob  string
+	N     int
+	Label string
+}
+
 type AnchorAssert struct {
 	Anchor string // "call:<callee-substring>#n" or "store:<field>#n"
 	Clause Clause
@@ -44,6 +51,7 @@ type FuncContract struct {
 	Flags     map[string]bool // pure, trusted, wrap64, maypanic, noinline, opaque, frame
 	Asserts   []AnchorAssert
 	FnSpecs   map[string]*FuncContract // param name -> contract of function-typed param
+	Marks     []MarkSpec               // named program points (state snapshots) usable as at("label", e)
 	ErrProp   []string                 // callee substrings whose error must propagate
 	Props     []string
 	Results   []string // optional explicit result names
@@ -370,6 +378,23 @@ func (cs *ContractSet) LoadContractFile(path, pkgPath string, repoStyle bool) er
 				return fail(err)
 			}
 			cur.Asserts = append(cur.Asserts, AnchorAssert{Anchor: anchor[1:], Clause: c})
+		case "mark":
+			if cur == nil {
+				return fail(fmt.Errorf("mark outside func"))
+			}
+			anchor, label := splitWord(rest)
+			if !strings.HasPrefix(anchor, "@after:") || label == "" {
+				return fail(fmt.Errorf("mark @after:<callee>#<n> <label>"))
+			}
+			g := strings.TrimPrefix(anchor, "@after:")
+			n := 1
+			if i := strings.LastIndex(g, "#"); i >= 0 {
+				if v, err := strconv.Atoi(g[i+1:]); err == nil {
+					n = v
+					g = g[:i]
+				}
+			}
+			cur.Marks = append(cur.Marks, MarkSpec{Glob: g, N: n, Label: label})
 		case "errprop":
 			if cur == nil {
 				return fail(fmt.Errorf("errprop outside func"))
@@ -385,7 +410,7 @@ func (cs *ContractSet) LoadContractFile(path, pkgPath string, repoStyle bool) er
 				return fail(fmt.Errorf("results outside func"))
 			}
 			target.Results = strings.Fields(strings.ReplaceAll(rest, ",", " "))
-		case "pure", "trusted", "maypanic", "noinline", "opaque", "frame", "nopanic", "readsheap", "nonnil", "fresh", "noeffect", "nilsafe", "inline":
+		case "pure", "trusted", "maypanic", "noinline", "opaque", "frame", "nopanic", "readsheap", "nonnil", "fresh", "noeffect", "nilsafe", "inline", "deterministic":
 			if target == nil {
 				return fail(fmt.Errorf("%s outside func", word))
 			}
